@@ -82,6 +82,9 @@ def hostile_names(rng, canaries):
         "C:\\Windows\\x.txt", "C:x.txt", "\\\\server\\share\\x.txt", "//double/slash.txt", "./dot.txt", "a//b.txt", "a/./b.txt",
         "x" * 300 + ".txt", "d/" * 60 + "deep.txt", "ünï/文書 😀.txt", "trailing./x.txt", " lead.txt", "tab\tname.txt", "new\nline.txt",
         "con.txt", "..txt", "...", "..", ".", "", "~/home.txt", "$HOME/x.txt", "%TEMP%\\x.txt", "nul\x00byte.txt",
+        # names that are unsafe *and* belong to members that must never produce a result (whatever is done about the unsafe name,
+        # their bytes must not come out - under their own name or, in a solid 7z folder, under a neighbour's)
+        *unsafe_protected_names(),
         ".hidden.txt", "dir/.hidden2.md", "__MACOSX/._res.txt", "__MACOSX/sub/x.txt", "inner.zip", "inner.tar.gz", "deep/inner.7z", "tool.exe", "noext",
         "UPPER.TXT", "mixed.TxT", "report.docx", "data.json",
     ]
@@ -223,20 +226,32 @@ def _escapes(name: str) -> bool:
     return not (tgt == base or tgt.startswith(base + os.sep))
 
 
+def unsafe_protected_names():
+    return ["../.secret.txt", "../../.env.md", "a/../../.hidden3.txt", OUTSIDE + "/.hidden4.txt", "../../outside/tool2.exe", "../../outside/inner2.zip", "/" + "../" * 3 + ".top.txt",
+            "..\\.bs-hidden.txt", "docs/../../../outside/.hidden5.csv", "../../outside/noext2"]
+
+
 def build_case(seed: int, layout: str, focus: str = "names"):
     rng = random.Random(f"c09:{seed}")
     canaries = _canaries()
     fam = archives.family(layout)
     if focus == "names":
         names = hostile_names(rng, canaries)[: rng.randint(3, 12)]
+    elif focus == "unsafe":
+        # ordinary members plus one or two members that are unsafe by name *and* protected by name (hidden / unsupported / nested), not at the end:
+        # in a folder that holds several files their bytes lie in front of an ordinary member's
+        names = rng.sample(BENIGN_NAMES, rng.randint(2, 5)) + rng.sample(unsafe_protected_names(), rng.randint(1, 2)) + (["../plain-up.txt"] if rng.random() < 0.3 else [])
     else:       # directory entries / links are the hostile part: file members keep ordinary names, so the archive is processed to the end
         names = rng.sample(BENIGN_NAMES, rng.randint(0, 5))     # 0: an archive of directory entries / links only (no packed stream at all in a 7z)
     if archives.tar_format(layout) == "ustar":
         names = [n for n in names if len(n.encode()) <= 100]      # the 1988 header cannot hold longer names (a packer refuses them)
     members = []
     expect_skip = []
+    # entries without data stream make the size table of a 7z inconsistent (member-level expectations are off then): only in a part of the
+    # name cases - the phantoms focus owns them
+    phantom_case = fam == "7z" and focus == "names" and rng.random() < 0.4
     info = {"hostile_dirs": 0, "escaping_dirs": 0, "links_to_protected": 0, "link_tokens": [], "oversize_linked": False, "oversize_form": None, "substreams": True,
-            "prelude": [], "twin_forbidden": [], "own": [], "twins": 0, "phantom_escapes": 0, "dups": None, "dup_tokens": []}
+            "prelude": [], "twin_forbidden": [], "own": [], "twins": 0, "phantom_escapes": 0, "dups": None, "dup_tokens": [], "unsafe_protected": 0}
     for i, nm in enumerate(names):
         tok = f"qa{seed % 1000:03d}{i:02d}z"
         data = f"{tok} member payload {i}\n".encode()
@@ -246,7 +261,7 @@ def build_case(seed: int, layout: str, focus: str = "names"):
         if nm.endswith((".zip", ".tar.gz", ".7z")):
             data = archives.build("zip-stored", [{"name": "x.txt", "data": f"{tok} nested".encode()}])
         m = {"name": nm, "data": data, "type": "file"}
-        if fam == "7z" and focus == "names" and rng.random() < 0.35:
+        if phantom_case and rng.random() < 0.35:
             m["phantom"] = True          # entry flagged as having data, but no stream exists for it
         members.append(m)
         base = nm.replace("\\", "/").rsplit("/", 1)[-1] if fam != "zip" else nm.rsplit("/", 1)[-1]
@@ -310,6 +325,14 @@ def build_case(seed: int, layout: str, focus: str = "names"):
                 big["inconsistent"] = True
         members.append(big)
     rng.shuffle(members)
+    if focus == "unsafe":
+        up = set(unsafe_protected_names())
+        last_ok = max((i for i, m in enumerate(members) if m.get("type", "file") == "file" and m["name"] in BENIGN_NAMES), default=None)
+        for i, m in enumerate(members):
+            if m["name"] in up and last_ok is not None and i > last_ok:        # an ordinary member must follow it
+                members.insert(rng.randint(0, last_ok), members.pop(i))
+                break
+        info["unsafe_protected"] = sum(1 for m in members if m["name"] in up)
     if focus == "twins":
         _add_twins(rng, seed, layout, members, info)
     elif focus == "dups":
@@ -473,6 +496,7 @@ def work(case):
     out["oversize_form"] = info["oversize_form"]
     out["oversize_content_in_results"] = (TAIL_TOKEN in blob) or any(len(t) > MEMBER_LIMIT for t in texts)
     # twins: per archive of the sequence
+    out["unsafe_protected"] = info["unsafe_protected"]
     out["phantom_escapes"] = info["phantom_escapes"]
     out["dups"] = info["dups"]
     out["dup_protected_in_results"] = [t for t in info["dup_tokens"] if t in blob] if not case.get("mutate") else []
@@ -547,7 +571,7 @@ def gen_cases(run):
     for layout in archives.EXTENDED_LAYOUTS:
         fam = archives.family(layout)
         # r % 5 == 4: byte-mutated archive; otherwise the hostile part is the file names / the directory entries / (TAR, ZIP) link members
-        cycle = ["names", "dirs", "twins", "phantoms", "dups", "dirs"] if fam == "7z" else ["names", "links", "dirs", "twins", "dups", "links"]
+        cycle = ["names", "dirs", "twins", "phantoms", "dups", "unsafe"] if fam == "7z" else ["names", "links", "dirs", "twins", "dups", "links"]
         for r in range(run.n(40, 400) if layout in archives.ALL_LAYOUTS else run.n(12, 120)):      # TAR header formats gnu / ustar: fewer repetitions
             cid += 1
             focus = "names" if r % 5 == 4 else cycle[(r * 5 // 4) % 6]
@@ -587,6 +611,8 @@ def main(run):
             if ob.get(k) and not case["mutate"]:
                 run.count(f"{'7z' if fam == '7z' else 'zip' if fam == 'zip' else 'tar'}_archives_with_{k}")
         run.count("mkdir_events_observed", ob.get("n_mkdir_events", 0))
+        if ob.get("unsafe_protected") and not case["mutate"] and fam == "7z" and ("solid" in case["layout"] or "pairs" in case["layout"]):
+            run.count("7z_multi_file_folders_with_unsafe_named_protected_member")
         if ob.get("phantom_escapes") and not case["mutate"]:
             run.count("7z_archives_with_streamless_entries_climbing_out")
         if ob.get("dups") and not case["mutate"]:
@@ -600,7 +626,7 @@ def main(run):
         armed_with_events += 1 if ob["n_events"] else 0
         seen = set()
 
-        feat0 = {"phantoms": "streamless-entries-with-climbing-names", "dups": "duplicate-member-names"}.get(focus, "hostile-names")
+        feat0 = {"phantoms": "streamless-entries-with-climbing-names", "dups": "duplicate-member-names", "unsafe": "unsafe-names-of-protected-members"}.get(focus, "hostile-names")
         if focus == "dups" and ob.get("dups_twin_clean") is False:
             feat0 = "hostile-names"         # the twin with unique names misbehaves as well: not a matter of the repeated name
 
@@ -658,7 +684,7 @@ def main(run):
     run.require("fs_events_observed", ev_total, run.n(200, 3000))
     run.require("layouts_exercised", len(per_layout), len(archives.EXTENDED_LAYOUTS))
     # the new families must really have been processed (not lost as unbuildable / died), and the monitor must have seen directory creation at all
-    for k, lo in (("7z_archives_with_escaping_dirs", run.n(150, 1500)), ("zip_archives_with_escaping_dirs", run.n(10, 100)), ("tar_archives_with_escaping_dirs", run.n(30, 300)),
+    for k, lo in (("7z_archives_with_escaping_dirs", run.n(100, 1000)), ("7z_multi_file_folders_with_unsafe_named_protected_member", run.n(20, 200)), ("zip_archives_with_escaping_dirs", run.n(10, 100)), ("tar_archives_with_escaping_dirs", run.n(30, 300)),
                   ("tar_archives_with_links_to_protected", run.n(40, 400)), ("mkdir_events_observed", run.n(500, 5000)),
                   ("archive_sequences_with_same_base_name_twins", run.n(80, 800)), ("7z_archives_with_streamless_entries_climbing_out", run.n(60, 600)),
                   ("7z_archives_with_duplicate_member_names", run.n(60, 600)), ("tar_archives_with_duplicate_member_names", run.n(30, 300)), ("zip_archives_with_duplicate_member_names", run.n(6, 60)), ("7z_archives_with_oversize_member_listed_smaller", run.n(8, 80))):
